@@ -63,6 +63,7 @@ type Obligation struct {
 	Inputs  []*Term
 	Queries []*Term
 	IsCover bool // vacuity/cover check: expected SAT
+	Informational bool // reported in evidence, never fails the check
 	Parts   []*Obligation // alternative decomposition (per return point); all unsat => discharged
 }
 
@@ -87,6 +88,7 @@ type Proof struct {
 	freshRefs   map[int]bool
 	nonNilElems map[int]bool
 	checkStores bool
+	escaped     map[*Cell]bool
 	bvFacts     [][]*Term
 	epochs      int
 	storeCount  int
@@ -634,16 +636,29 @@ type loopInfo struct {
 // autoRange: the built-in invariant of a range-over-slice/string loop: -1 <= rangeindex < len(x),
 // where len(x) was evaluated once before the loop (an immutable SSA register).
 type autoRange struct {
-	cell *Cell
-	lenT *Term
+	cell    *Cell
+	lenT    *Term
+	strIter bool
 }
 
 func (a *autoRange) inv(ri *Term) *Term {
+	if a.strIter {
+		return And(BVSle(BVInt(0, 64), ri), BVSle(ri, a.lenT))
+	}
 	return And(BVSle(BVInt(-1, 64), ri), BVSlt(ri, a.lenT), BVSle(BVInt(0, 64), a.lenT))
 }
 
 func (fr *Frame) autoRange(li *loopInfo) *autoRange {
 	h := li.head
+	if h.Comment == "rangeiter.loop" && len(h.Instrs) > 0 {
+		// range over a string: the hidden byte index grows by 1..4 per iteration and is at most len(s)
+		if nx, ok := h.Instrs[0].(*ssa.Next); ok && nx.IsString {
+			if rs := fr.rangeIt[nx.Iter]; rs != nil && !rs.isMap {
+				return &autoRange{cell: rs.cell, lenT: strLen(rs.str), strIter: true}
+			}
+		}
+		return nil
+	}
 	if h.Comment != "rangeindex.loop" || len(h.Instrs) < 5 {
 		return nil
 	}
@@ -910,7 +925,21 @@ func (fr *Frame) findLoops() {
 	}
 	for _, li := range fr.loops {
 		lo, hi := token.Pos(0), token.Pos(0)
+		// positions of the header block (loop condition / range step) identify the statement best
+		for _, in := range li.head.Instrs {
+			if ps := in.Pos(); ps.IsValid() {
+				if lo == 0 || ps < lo {
+					lo = ps
+				}
+				if ps > hi {
+					hi = ps
+				}
+			}
+		}
 		for b := range li.body {
+			if lo != 0 {
+				break
+			}
 			for _, in := range b.Instrs {
 				if ps := in.Pos(); ps.IsValid() {
 					if lo == 0 || ps < lo {
@@ -931,6 +960,12 @@ func (fr *Frame) findLoops() {
 			}
 		}
 		li.ord = best + 1
+		if os.Getenv("GOVC_DEBUG_LOOPS") != "" {
+			fmt.Printf("loop head %d: lo=%v hi=%v best=%d\n", li.head.Index, fr.p.eng.fset.Position(lo), fr.p.eng.fset.Position(hi), best)
+			for i, n := range astLoops {
+				fmt.Printf("   ast loop %d: %v .. %v\n", i, fr.p.eng.fset.Position(n.Pos()), fr.p.eng.fset.Position(n.End()))
+			}
+		}
 	}
 }
 
@@ -1157,7 +1192,13 @@ func (fr *Frame) loopHead(li *loopInfo, st *State) *State {
 	}
 	n := st.clone()
 	for cell := range eff.cells {
-		if _, ok := n.Locals[cell]; ok {
+		if old, ok := n.Locals[cell]; ok {
+			if cell.Typ == nil {
+				if sc, isS := old.(Scalar); isS {
+					n.Locals[cell] = Scalar{B.Fresh("lp."+sanitize(cell.Name), sc.T.Sort)}
+				}
+				continue
+			}
 			v := freshValue(cell.Typ, "lp."+cell.Name)
 			n.Locals[cell] = v
 		}
@@ -1215,7 +1256,7 @@ func (fr *Frame) loopHead(li *loopInfo, st *State) *State {
 	}
 
 	for cell := range eff.cells {
-		if v, ok := n.Locals[cell]; ok {
+		if v, ok := n.Locals[cell]; ok && cell.Typ != nil {
 			p.assume(reach, p.typeInv(n, cell.Typ, v))
 		}
 	}
@@ -1240,6 +1281,11 @@ func (fr *Frame) loopHead(li *loopInfo, st *State) *State {
 		li.decHead = append(li.decHead, v.(Scalar).T)
 	}
 	li.havocked = eff
+	if fr.depth == 0 {
+		lo := &Obligation{Name: fr.loopName(li, "vacuity", 1), Kind: "vacuity", Guard: reach, Goal: False(), NAssume: len(p.assumptions), Desc: "loop invariant and assumptions are satisfiable at the loop head", Fn: p.fname, IsCover: true}
+		lo.Pos = p.eng.fset.Position(headPos)
+		p.obligations = append(p.obligations, lo)
+	}
 	return n
 }
 
@@ -1419,6 +1465,14 @@ func (fr *Frame) exec(in ssa.Instruction, st *State) {
 		fr.regs[x] = retag(fr.val(x.X), x.Type())
 	case *ssa.MakeInterface:
 		v := fr.val(x.X)
+		if pv, ok := v.(PtrV); ok && pv.Kind == KLocal {
+			// the address of a local escapes into an interface value (e.g. fmt.Sscanf(..., &x)): callees
+			// without a contract may write through it
+			if p.escaped == nil {
+				p.escaped = map[*Cell]bool{}
+			}
+			p.escaped[pv.Cell] = true
+		}
 		r := B.Fresh("iface", SRef)
 		p.assume(True(), Neq(r, BVInt(0, 64)))
 		tid := p.eng.typeID(x.X.Type())
